@@ -1221,7 +1221,7 @@ func TestC16(t *testing.T) {
 		ok := true
 		for rep := 0; rep < 2 && ok; rep++ {
 			sub := &c16Run{sigma: r.sigma, thorough: r.thorough, nontriv: map[string]bool{}, byFamily: map[string]int{}}
-			sub.runCase(pool.get(0), cd.Case)
+			sub.runCase(pool.get(axFreshIndex()), cd.Case) // fresh server per confirmation
 			ok = false
 			for _, c2 := range sub.cands {
 				ok = ok || c2.Sig == cd.Sig
